@@ -82,6 +82,9 @@ func dhcp4Frame(g *gen) []byte {
 
 func viewCases(g *gen) {
 	rng := g.rng
+	// witness of the LLDP finding repaired in /repo 5551427 (a TLV of type 88, length 1): regression check
+	lw := lib.UnHex("b001cbd6f46e39ecb6cc2a1440bf6ad4377f0badd4b459b28a205a36")
+	g.checkView("LLDP", packet.LLDP(lw), lw)
 	n := 300
 	if g.r.Thorough() {
 		n = 3000
